@@ -68,9 +68,13 @@ def make_scenarios(ctx, count, per):
         s = H.Scenario("t%d" % i)
         s.iface(0, **H.iface_kw(base)).glob(**G.global_kw(G.rand_global(rng, icon_size=0)))
         s.add("OPT sleep=0")
+        # a getter reports failure with any non-zero value (the core's convention is 0 = success)
+        failrc = rng.choice([-1, -1, 1, 2, -2, 255, 0x7fffffff, -0x80000000])
+        s.add("OPT failrc=%d" % failrc)
         tuples = []
         for _ in range(per):
             t = rand_tuple(rng, idx)
+            t["failrc"] = failrc
             idx += 1
             kw = H.iface_kw(t)
             kw.pop("mtu"), kw.pop("rxseed")
@@ -115,9 +119,17 @@ def monitor(scn, sobj, rep, sf, ck):
                           replay=sobj.text())
 
         def expect(ty, name, want, failbit=0, gfail=False):
-            if (fail & failbit) or gfail:
-                return
             got = d.get(ty)
+            if (fail & failbit) or gfail:
+                # the platform supplied nothing: the property is left out or carries no value (zero bytes) - never
+                # something the platform did not say
+                rep.count("failed_getter_properties_judged")
+                if t["failrc"] > 0:
+                    rep.count("failed_getter_positive_code_judged")
+                if got is not None and got.strip(b"\0"):
+                    bad("value-although-getter-failed:" + name, "property %#x = %s although the platform's getter reported failure (code %d)"
+                        % (ty, got.hex(), t["failrc"]))
+                return
             if got is None:
                 bad("missing:" + name, "property %#x absent" % ty)
             elif got != want:
@@ -162,7 +174,7 @@ def run(ctx):
                 "RSSI values, wireless on/off, getters failing independently), one Discover per tuple, every decoded Hello "
                 "property compared with what the port supplied; plus the Linux layer: the real os/linux/lltd_port.c linked "
                 "with the core, Hello compared with the network_interface_t record; distinct by attribute tuple")
-    rep.assumptions = ["the value of a property whose getter fails is not constrained",
+    rep.assumptions = ["a property whose getter reports failure (any non-zero code) must be absent or all zero bytes",
                        "Linux speed conversion: rounding accepted in either direction (|LinkSpeed - 100*speed| < 100)"]
     binary = H.build(ctx.work, "asan")
     scns = make_scenarios(ctx, ctx.n(400, 12500), ctx.n(50, 80))
@@ -174,5 +186,6 @@ def run(ctx):
     rep.need("negative_rssi", c.get("negative_rssi", 0), 500)
     rep.need("hostname_longer_than_32", c.get("hostname_longer_than_32", 0), 500)
     rep.need("tuples_with_failing_getters", c.get("tuples_with_failing_getters", 0), 500)
+    rep.need("failed_getter_positive_code_judged", c.get("failed_getter_positive_code_judged", 0), 300)
     rep.need("both name conventions", min(c.get("conv:0", 0), c.get("conv:1", 0)), 1000)
     c04_linux.run(ctx)
